@@ -13,7 +13,8 @@ RULE = (
     "proxy identity is compared with its token position in the edited "
     "listing; all module symbols must be attached. non-trivial = apply() "
     "returned with >=1 edit and >=1 label compared; distinct = distinct shape "
-    "signatures."
+    "signatures. Modules and patches as in C01 (zero-sized input blocks "
+    "carry labels too)."
 )
 ASSUMPTIONS = [
     "position = (section, byte offset counted over the section's original intervals in original order), so the end of one interval and the start of the next are the same place",
